@@ -279,28 +279,98 @@ def main(out_v, out_json):
                 tags[n] = family_tag(n)
     info["family_tags"] = tags
 
-    # ---- what the dumpers can emit as "__loader__" (AST scan, fail-closed)
+    # ---- what the dumpers can emit as "__loader__" (AST scan)
+    # constants bound to the key "__loader__" in dict displays / subscript assignments; a value that is a PARAMETER of the
+    # enclosing function makes that function a helper whose call sites are followed (to a fixpoint).  What cannot be
+    # resolved this way is not a reason to stop: the scan is then marked incomplete and the behavioural set (loaders seen
+    # in real dumps, added by the checks that need it) stands in.
     emits = set()
+    unresolved = []
     io_dir = REPO / "skops" / "io"
-    for f in sorted(io_dir.glob("*.py")):
-        tree = ast.parse(f.read_text())
-        for n in ast.walk(tree):
-            if isinstance(n, ast.Dict):
-                for k, v in zip(n.keys, n.values):
-                    if isinstance(k, ast.Constant) and k.value == "__loader__":
-                        if not (isinstance(v, ast.Constant) and isinstance(v.value, str)):
-                            abort(f"{f.name}:{n.lineno}: non-constant __loader__ in dict display")
-                        emits.add(v.value)
-            elif isinstance(n, ast.Assign):
-                for t in n.targets:
-                    if isinstance(t, ast.Subscript) and isinstance(t.slice, ast.Constant) and t.slice.value == "__loader__":
-                        if not (isinstance(n.value, ast.Constant) and isinstance(n.value.value, str)):
-                            abort(f"{f.name}:{n.lineno}: non-constant __loader__ assignment")
-                        emits.add(n.value.value)
-            elif isinstance(n, ast.Call) and isinstance(n.func, ast.Attribute) and n.func.attr in ("update", "setdefault"):
-                for kw in n.keywords:
-                    if kw.arg == "__loader__":
-                        abort(f"{f.name}:{n.lineno}: __loader__ set through {n.func.attr}()")
+    trees = {f: ast.parse(f.read_text()) for f in sorted(io_dir.glob("*.py"))}
+
+    def params_of(fn):
+        a = fn.args
+        return [x.arg for x in a.posonlyargs + a.args] , [x.arg for x in a.kwonlyargs]
+    helpers = {}     # function name -> set of parameter names that end up as a "__loader__" value
+
+    def note_value(v, fn, where):
+        """v = expression bound to "__loader__" inside function fn (or None at module level)"""
+        if isinstance(v, ast.Constant) and isinstance(v.value, str):
+            emits.add(v.value)
+            return
+        if fn is not None and isinstance(v, ast.Name):
+            pos, kwo = params_of(fn)
+            if v.id in pos + kwo:
+                if v.id not in helpers.setdefault(fn.name, set()):
+                    helpers[fn.name].add(v.id)
+                    note_value.changed = True
+                return
+        unresolved.append(where)
+    note_value.changed = False
+
+    def scan(first):
+        for f, tree in trees.items():
+            stack = []
+
+            def visit(n):
+                is_fn = isinstance(n, (ast.FunctionDef, ast.AsyncFunctionDef))
+                if is_fn:
+                    stack.append(n)
+                fn = stack[-1] if stack else None
+                if first:
+                    if isinstance(n, ast.Dict):
+                        for k, v in zip(n.keys, n.values):
+                            if isinstance(k, ast.Constant) and k.value == "__loader__":
+                                note_value(v, fn, f"{f.name}:{n.lineno}: __loader__ in dict display")
+                    elif isinstance(n, ast.Assign):
+                        for t in n.targets:
+                            if isinstance(t, ast.Subscript) and isinstance(t.slice, ast.Constant) and t.slice.value == "__loader__":
+                                note_value(n.value, fn, f"{f.name}:{n.lineno}: __loader__ assignment")
+                    elif isinstance(n, ast.Call) and isinstance(n.func, ast.Attribute) and n.func.attr in ("update", "setdefault"):
+                        for kw in n.keywords:
+                            if kw.arg == "__loader__":
+                                note_value(kw.value, fn, f"{f.name}:{n.lineno}: __loader__ through {n.func.attr}()")
+                if isinstance(n, ast.Call):
+                    name = n.func.id if isinstance(n.func, ast.Name) else (n.func.attr if isinstance(n.func, ast.Attribute) else None)
+                    if name in helpers:
+                        target = None
+                        for g_tree in trees.values():
+                            for g in ast.walk(g_tree):
+                                if isinstance(g, (ast.FunctionDef, ast.AsyncFunctionDef)) and g.name == name:
+                                    target = g
+                        if target is not None:
+                            pos, kwo = params_of(target)
+                            for pname in list(helpers[name]):
+                                arg = None
+                                if pname in pos and pos.index(pname) < len(n.args):
+                                    arg = n.args[pos.index(pname)]
+                                for kw in n.keywords:
+                                    if kw.arg == pname:
+                                        arg = kw.value
+                                if arg is None:
+                                    d = target.args.defaults
+                                    if pname in pos and len(pos) - pos.index(pname) <= len(d):
+                                        arg = d[len(d) - (len(pos) - pos.index(pname))]
+                                if arg is None:
+                                    unresolved.append(f"{f.name}:{n.lineno}: call of {name} without a value for {pname}")
+                                else:
+                                    note_value(arg, fn, f"{f.name}:{n.lineno}: argument {pname} of {name}()")
+                for c in ast.iter_child_nodes(n):
+                    visit(c)
+                if is_fn:
+                    stack.pop()
+            visit(tree)
+    scan(True)
+    for _ in range(4):
+        note_value.changed = False
+        before = len(unresolved)
+        del unresolved[before:]
+        scan(False)
+        if not note_value.changed:
+            break
+    unresolved = sorted(set(unresolved))
+    info["emits_unresolved"] = unresolved
     # loaders that only exist when an optional dependency is installed are emitted only then
     from skops.io import _quantile_forest
     if getattr(_quantile_forest, "QuantileForest", None) is None:
